@@ -71,7 +71,7 @@ func checkC01(tier, replay string) int {
 		"distinct_nontrivial = distinct (configuration, protocol, port mode, op-kind sequence with canonical key names) with at least one key touched twice")
 	run.Assume("fakemc implements memcached semantics (self-tested against the model)")
 	run.Assume("append/prepend on a missing key may answer not-found or not-stored; the text protocol prints NOT_STORED for 'exists'")
-	nseq := run.Pick(8, 120)
+	nseq := run.Pick(24, 160)
 	cfgs := c01Configs(true)
 	if !run.Thorough() {
 		// quick: all base shapes, plus the two extended L1/L2 unlocked shapes
